@@ -424,6 +424,15 @@ func genCase(rng *rand.Rand, exhaust int) *ncase {
 				c.Steps = append(c.Steps, step{K: "adv", Adv: L - 10}, step{K: "out", Src: keep, Dst: keepRem, Size: 8}, step{K: "adv", Adv: L - 10}, step{K: "out", Src: keep, Dst: keepRem, Size: 8})
 			}
 		}
+		// the keys whose allocation was refused because every port was taken (history without expiry) are used again, twice:
+		// a refusal must leave nothing behind, so they are refused again or get a proper address, and a new endpoint too
+		dstOfK := func(k int) string { return fmt.Sprintf("5.6.%d.%d:%d", 8+k/60000, 1+(k/250)%250, 1000+k%250) }
+		for rep := 0; rep < 2; rep++ {
+			for k := total - 25; k < total; k++ {
+				c.Steps = append(c.Steps, step{K: "out", Src: "192.168.0.11:4001", Dst: dstOfK(k), Size: 1})
+			}
+			c.Steps = append(c.Steps, step{K: "out", Src: "192.168.0.13:4003", Dst: "7.7.8.1:3000", Size: 1})
+		}
 		c.Steps = append(c.Steps, step{K: "out", Src: keep, Dst: keepRem, Size: 8}, step{K: "in", Src: keepRem, Dst: "@0", Size: 4})
 		// after the wrap-around: keys whose mappings expired long ago (their ports now belong to later, live mappings) are used
 		// again; the live mappings must keep working and fresh allocations must not collide with them
